@@ -11,6 +11,7 @@ import (
 	"fmt"
 	"strings"
 	"time"
+	_ "time/tzdata" // zone rules embedded: the sandbox may have no zoneinfo files
 
 	sdk "github.com/cosmos/cosmos-sdk/types"
 	abci "github.com/tendermint/tendermint/abci/types"
@@ -99,6 +100,15 @@ var queryPaths = []string{
 // against the last committed state and runs the mempool check on the transaction it is about to execute.  None of
 // that may influence what block execution returns or commits.
 func replayHistoryNoisy(h *recHistory, noisy bool) ([]blockResult, *chain.Chain) {
+	if noisy {
+		// ... and its host lives in another time zone than the primary's (one with daylight saving, or an odd offset)
+		zones := []string{"America/New_York", "Europe/Berlin", "Australia/Lord_Howe", "Asia/Kathmandu", "America/Sao_Paulo"}
+		if loc, err := time.LoadLocation(zones[len(h.Blocks)%len(zones)]); err == nil {
+			saved := time.Local
+			time.Local = loc
+			defer func() { time.Local = saved }()
+		}
+	}
 	c := chain.New(historyGenesis(h.Window, h.Check, h.NumAccounts))
 	var out []blockResult
 	noise := func(i, j int, raw []byte) {
@@ -268,8 +278,17 @@ func (b *histBuilder) send(signer chain.Account, msg sdk.Msg) abci.ResponseDeliv
 func (b *histBuilder) ctx() sdk.Context { return b.c.DeliverCtx() }
 
 func (b *histBuilder) postFile(owner chain.Account, content []byte, maxProofs int64) {
+	b.postFileFor(owner, content, maxProofs, 0)
+}
+
+// postFileFor posts a plan-paid file (days == 0) or a file paid once for `days` days (its own gauge, calendar arithmetic).
+func (b *histBuilder) postFileFor(owner chain.Account, content []byte, maxProofs, days int64) {
 	f := buildFile(content, 1024)
-	r := b.send(owner, &storagetypes.MsgPostFile{Creator: owner.Bech, Merkle: f.Merkle, FileSize: f.FileSize, MaxProofs: maxProofs, Note: "{}"})
+	var expires int64
+	if days > 0 {
+		expires = b.c.Height + days*14400 + 7
+	}
+	r := b.send(owner, &storagetypes.MsgPostFile{Creator: owner.Bech, Merkle: f.Merkle, FileSize: f.FileSize, MaxProofs: maxProofs, Expires: expires, Note: "{}"})
 	if r.Code == 0 {
 		f.Owner, f.Start, f.MaxProofs = owner.Bech, b.c.Height, maxProofs
 		b.files = append(b.files, f)
@@ -331,6 +350,8 @@ func buildHistory(rt *rapid.T, full bool) (*histBuilder, string) {
 	b.send(o0, &notiftypes.MsgBlockSenders{Creator: o0.Bech, ToBlock: []string{other[0].Bech}})
 	b.postFile(b.owners[0], append([]byte{1}, c02Content(2500)...), int64(nProv))
 	b.postFile(b.owners[1], append([]byte{2}, c02Content(700)...), 2)
+	// a file paid once for a span of months (crosses daylight-saving switches of most zones that have them)
+	b.postFileFor(b.owners[1], append([]byte{3}, c02Content(1200)...), 2, rapid.Int64Range(30, 400).Draw(rt, "payOnceDays"))
 	for _, p := range b.provs {
 		b.prove(p, b.files[0])
 	}
@@ -360,7 +381,11 @@ func buildHistory(rt *rapid.T, full bool) (*histBuilder, string) {
 				}
 			case 3:
 				o := b.owners[rapid.IntRange(0, 1).Draw(rt, "owner")]
-				b.postFile(o, append([]byte{byte(10 + len(b.files))}, c02Content(rapid.Int64Range(1, 3000).Draw(rt, "size"))...), rapid.Int64Range(1, 4).Draw(rt, "maxProofs"))
+				var days int64
+				if rapid.IntRange(0, 2).Draw(rt, "payOnce") == 0 {
+					days = rapid.Int64Range(1, 800).Draw(rt, "days")
+				}
+				b.postFileFor(o, append([]byte{byte(10 + len(b.files))}, c02Content(rapid.Int64Range(1, 3000).Draw(rt, "size"))...), rapid.Int64Range(1, 4).Draw(rt, "maxProofs"), days)
 			case 4: // attestation / report forms (height-seeded shuffles)
 				f := b.files[rapid.IntRange(0, len(b.files)-1).Draw(rt, "file")]
 				p := b.provs[rapid.IntRange(0, len(b.provs)-1).Draw(rt, "prover")]
